@@ -18,7 +18,7 @@ def spec(tier, seed, repo):
         "rt_int_mpz": 600, "rt_int_TMCG_Bigint": 600, "rt_int_gcry_mpi": 500, "int_exact": 1800,
         "int_longest_text_exact": 6, "int_longer_text_cases": 30, "int_long_text_refused": 30, "rt_int_sequence": 20,
         # cards: every player count and every number of type bits
-        "rt_TMCG_Card": 1200, "rt_TMCG_CardSecret": 1200, "rt_VTMF_Card": 250, "rt_VTMF_CardSecret": 250,
+        "rt_TMCG_Card": 700, "rt_TMCG_CardSecret": 700, "rt_VTMF_Card": 250, "rt_VTMF_CardSecret": 250,
         "mode_used_same": 80, "mode_used_shrink": 80, "mode_used_grow": 80, "mode_used_rebuild": 80, "mode_used_twice": 80,
         "card_longest_values": 2, "transport_stream_operator": 300, "transport_string_ctor": 8,
         # stacks
